@@ -4,6 +4,7 @@ CONSTANTS
   Runtimes = {"threaded"}
   MaxReq = 1
   Kinds = {"keep"}
+  SigTwice = FALSE
   Dev = {"BoundedQueueCap"}
 SPECIFICATION Spec
 PROPERTIES Live_RunReturns
